@@ -42,7 +42,7 @@ class Interp:
     def first(self, s):
         """first char class of an abstract string, '' when empty"""
         if s == ("rest", 0):
-            return self.cls
+            return self.cls if self.cls != "o" else "\x00other"
         if s[0] == "const" and isinstance(s[1], str):
             return s[1][:1]
         raise Unsupported("first char of %r" % (s,))
@@ -126,9 +126,7 @@ class Interp:
                 if k[0] != "const":
                     raise Unsupported("comparison of a char class with %r" % (k,))
                 kc = k[1] if isinstance(k[1], str) else chr(k[1])
-                eq = (cc[1] == kc) if cc[1] in (".", "[") else (False if kc in (".", "[") else None)
-                if eq is None:
-                    raise Unsupported("comparison of an unknown character with %r" % kc)
+                eq = (cc[1] == kc) if cc[1] != "o" else False   # 'o' stands for a character the function never mentions
                 self.env[l] = ("const", eq if rv["binop"] == "Eq" else (not eq))
             else:
                 raise Unsupported("comparison %r %r" % (a, b))
@@ -190,9 +188,7 @@ class Interp:
             k = [x for x in d if x[0] != "charclass"]
             if not k or k[0][0] != "const":
                 raise Unsupported("char comparison")
-            eq = cc[1] == k[0][1] if (cc[1] in (".", "[") or k[0][1] not in (".", "[")) and not (cc[1] == "o" and k[0][1] not in (".", "[")) else False
-            if cc[1] == "o" and k[0][1] not in (".", "["):
-                raise Unsupported("comparison of an unknown character")
+            eq = (cc[1] == k[0][1]) if cc[1] != "o" else False
             r = ("const", eq if nm == "eq" else not eq)
         elif nm == "branch" and d and d[0][0] == "variant":
             v = d[0]
@@ -235,7 +231,7 @@ class Interp:
             elif k == "switch":
                 v = self.deref(self.operand(t["discr"]))
                 if v[0] == "charclass":
-                    iv = ord(v[1]) if v[1] in (".", "[") else None
+                    iv = ord(v[1]) if (v[1] != "o" and len(v[1]) == 1) else None
                 elif v[0] == "const":
                     iv = int(v[1]) if isinstance(v[1], (bool, int)) else (ord(v[1]) if isinstance(v[1], str) and len(v[1]) == 1 else None)
                 else:
@@ -256,6 +252,38 @@ class Interp:
                 return self.deref(self.env.get(0))
             else:
                 raise Unsupported("terminator %s" % k)
+
+
+def alphabet(fn):
+    """classes of the remainder: every character the function mentions (char constants, one-character string constants, values of
+    switches on chars), plus 'o' (any character it does not mention) and '' (empty remainder)"""
+    K = {".", "["}
+
+    def scan(o):
+        if isinstance(o, dict):
+            v = o.get("value")
+            if isinstance(v, dict):
+                if "char" in v:
+                    K.add(v["char"])
+                if "str" in v and len(v["str"]) == 1:
+                    K.add(v["str"])
+            for x in o.values():
+                scan(x)
+        elif isinstance(o, list):
+            for x in o:
+                scan(x)
+    scan(fn.blocks)
+    for b in fn.blocks:
+        t = b["term"]
+        if t["k"] == "switch":
+            pl = op_place(t["discr"])
+            direct = pl is not None and not pl["proj"] and fn.local_ty(pl["local"]) in ("char", "u8")
+            # `match opt_char { Some('.') => .. }` switches on a projection: printable code points cannot be enum discriminants here
+            if direct or (pl is not None and pl["proj"] and t["targets"] and all(32 <= v <= 0x10FFFF for (v, _) in t["targets"])):
+                for (v, _) in t["targets"]:
+                    if 0 < v < 0x110000:
+                        K.add(chr(v))
+    return sorted(K) + ["o", ""]
 
 
 def separators(fn, path_local, key_local, upvars=None):
